@@ -10,7 +10,7 @@ import hist as H
 import props.c04 as c04
 import props.c05 as c05
 import props.cfgprops as P
-from core import Result, stable
+from core import Result, stable, guard
 
 RULE = ("random schemas (every built-in persistent field kind with options, typed/untyped lists and dicts, nested sub-configurations, config types, "
         "lists of configurations, dynamic parts, virtual and instance-method fields) x random operation histories ending in validate() and to_tree(); "
@@ -355,7 +355,7 @@ def env_empty_stream(ctx, res, n):
 def run(ctx, n_quick=400, n_thorough=6000):
     res = Result()
     del PENDING[:]
-    env_empty_stream(ctx, res, ctx.n(3, 40))
+    guard(res, "C02", env_empty_stream, ctx, res, ctx.n(3, 40))
     P.run_stream(ctx, res, "C02", ctx.n(n_quick, n_thorough), oracle, gen_ops=gen_ops, ops_len=(3, 10),
                  schema_opts={"virtual": True}, label="save-reload")
     replies = ctx.model([r for _, _, r in PENDING])
